@@ -280,3 +280,39 @@ def deliveredOk (cands : List Cand) (delivered : List PObj) : Bool :=
   (delivered.map (·.id)).isPerm ((regionProtos cands).map (·.id))
 
 end ASV.Packing.Spec
+
+/-! ### genes as locations (what `CDSFeature`s of a region look like) -/
+namespace ASV.Packing.Spec
+open ASV ASV.Packing
+
+/-- the stretch `[lo, hi)` lies inside one part of the region -/
+def hullIn (c : Ctx) (lo hi : Int) : Bool :=
+  match c.region with
+  | .compound [p, q] =>
+    decide (lo < hi) && ((decide (p.lo ≤ lo) && decide (hi ≤ c.L)) || (decide (0 ≤ lo) && decide (hi ≤ q.hi)))
+  | .simple p => decide (p.lo ≤ lo) && decide (lo < hi) && decide (hi ≤ p.hi)
+  | .compound _ => false
+
+/-- piece `a` ends the record, piece `b` begins it, both inside the region -/
+def bridgeIn (c : Ctx) (a b : Part) : Bool :=
+  match c.region with
+  | .compound [p, q] => decide (p.lo ≤ a.lo) && decide (a.hi ≤ c.L) && decide (0 ≤ b.lo) && decide (b.hi ≤ q.hi)
+  | .simple p => c.circular && p.lo == 0 && p.hi == c.L && decide (a.hi ≤ c.L) && decide (0 ≤ b.lo)
+  | .compound _ => false
+
+/-- a gene of one or two exons inside the region: exons non-empty, in transcription order (for
+    the reverse strand the exon with the higher coordinates comes first), not overlapping;
+    either its hull lies in one part of the region, or it runs over the origin (the first exon
+    in genome order ends the record, the second begins it) -/
+def geneOK (c : Ctx) : Loc → Bool
+  | .simple p => hullIn c p.lo p.hi
+  | .compound [p, q] =>
+    p.strand == q.strand && (p.strand == .fwd || p.strand == .rev) &&
+    -- genome order
+    (let a := if p.strand == .fwd then p else q
+     let b := if p.strand == .fwd then q else p
+     if a.lo < b.lo then decide (a.lo < a.hi) && decide (a.hi ≤ b.lo) && decide (b.lo < b.hi) && hullIn c a.lo b.hi
+     else decide (b.lo < b.hi) && decide (b.hi ≤ a.lo) && decide (a.lo < a.hi) && bridgeIn c a b)
+  | .compound _ => false
+
+end ASV.Packing.Spec
